@@ -9,6 +9,7 @@ E2, differential (no hand-written expected colours):
 (ii) for every extension and whole-file name `--list-languages` reports: `x.<ext>` and
      `sub/dir/y.<ext>` colour their hunks identically; a file called exactly like a whole-name
      syntax gets it in any directory; an unknown name falls back to --default-language.
+(iii) the rows of a file section are the same whether or not a section of another language precedes it.
 """
 import re
 import subprocess
@@ -67,6 +68,12 @@ STYLE_VECTORS = {
                      "minus-emph-style": "syntax blink 103", "plus-emph-style": "syntax reverse 106",
                      "minus-non-emph-style": "syntax hidden 102", "plus-non-emph-style": "syntax ul bold 105",
                      "hunk-header-style": "line-number syntax italic"},
+    # emphasised and unemphasised text painted alike except that only the latter asks for `syntax`: which cells are
+    # emphasised is read from a reference render with the distinguishable vector `syntax`
+    "same-bg": {"minus-style": "syntax 101", "plus-style": "syntax 104", "zero-style": "syntax",
+                "minus-emph-style": "normal 101", "plus-emph-style": "normal 104",
+                "minus-non-emph-style": "syntax 101", "plus-non-emph-style": "syntax 104",
+                "hunk-header-style": "line-number syntax"},
 }
 # which element classes (by background) ask for syntax, per vector
 SYNTAX_BG = {
@@ -125,19 +132,35 @@ def run_theme_task(task):
         renders[th] = [cells_of(r.out) if not r.panic else None for r in res]
         n += len(diffs)
     ref = renders["none"]
+    emph_mask = None
+    if vec_name == "same-bg":
+        o = dict(base)
+        o.update(STYLE_VECTORS["syntax"])
+        o["syntax-theme"] = "none"
+        cid = drv.mkconfig(build_args(o))
+        res = drv.render(cid, [d for _, d in diffs])
+        drv.drop(cid)
+        emph_mask = []
+        for r in res:
+            rows_ = cells_of(r.out) if not r.panic else None
+            emph_mask.append(None if rows_ is None else
+                             [[(st[1] in (("i", 103), ("i", 106))) for _, st in row] for row in rows_])
     for th in theme_list:
-        for (dname, data), a, b in zip(diffs, ref, renders[th]):
+        for di, ((dname, data), a, b) in enumerate(zip(diffs, ref, renders[th])):
             if a is None or b is None:
                 continue
             err = None
+            mask = emph_mask[di] if emph_mask else None
+            if mask is not None and ([len(r_) for r_ in mask] != [len(r_) for r_ in a]):
+                raise MachineryError("same-bg: reference render has a different shape")
             if len(a) != len(b):
                 err = "number of rows differs between theme none and %s" % th
             else:
-                for ra, rb in zip(a, b):
+                for ri, (ra, rb) in enumerate(zip(a, b)):
                     if len(ra) != len(rb):
                         err = "row length differs (%d vs %d cells)" % (len(ra), len(rb))
                         break
-                    for (ca, sa), (cb, sb) in zip(ra, rb):
+                    for ci_, ((ca, sa), (cb, sb)) in enumerate(zip(ra, rb)):
                         if ca != cb:
                             err = "character %r becomes %r under theme %s" % (ca, cb, th)
                         elif sa[1] != sb[1]:
@@ -146,6 +169,9 @@ def run_theme_task(task):
                             err = "attributes of %r change from %d to %d under theme %s" % (ca, sa[2], sb[2], th)
                         elif sa[0] != sb[0]:
                             fg_diff += 1
+                            if mask is not None and mask[ri][ci_]:
+                                err = ("foreground of the emphasised %r (style `normal <bg>`, no `syntax`) changes from %s "
+                                       "to %s under theme %s" % (ca, sa[0], sb[0], th))
                             if vec_name in SYNTAX_BG:
                                 bgn = sa[1][1] if sa[1] is not None and sa[1][0] == "i" else None
                                 cls_of_cell = bgn if bgn in (101, 102, 103, 104, 105, 106) else None
@@ -265,6 +291,58 @@ ASSUMPTIONS = [
 ]
 
 
+def deleted_file_diff(name, lines):
+    return ("diff --git a/%s b/%s\ndeleted file mode 100644\nindex 1111111..0000000\n--- a/%s\n+++ /dev/null\n@@ -1,3 +0,0 @@\n"
+            % (name, name, name) + "".join("-%s\n" % l for l in lines[:3])).encode("utf-8")
+
+
+def run_neighbour_task(task):
+    """(iii) the language of a file's hunks is chosen by that file's name alone: the rows of section B are the same
+    whether or not a section A of another language precedes it (A ending in every kind of hunk, incl. removed lines
+    only and a deleted file, which feed nothing to the highlighter under the default styles)"""
+    vec_name, deadline = task
+    drv = explore.get_driver()
+    base = {"no-gitconfig": True, "paging": "never", "detect-dark-light": "never", "dark": True, "width": "60",
+            "true-color": "always", "syntax-theme": "Monokai Extended"}
+    base.update(STYLE_VECTORS[vec_name])
+    cid = drv.mkconfig(build_args(base))
+    names = {"rs": "x.rs", "py": "y.py", "Makefile": "Makefile", "txt": "z.unknownext"}
+    viols = {}
+    n = 0
+    differing = 0
+    secs = []
+    for key, lines in BODIES.items():
+        for kind in ("mixed", "removed", "added", "same"):
+            secs.append((key, kind, make_diff(names[key], lines, kind)))
+        secs.append((key, "deleted-file", deleted_file_diff(names[key], lines)))
+    alone = {}
+    res = drv.render(cid, [d for _, _, d in secs])
+    for (key, kind, d), r in zip(secs, res):
+        alone[(key, kind)] = cells_of(r.out) if not r.panic else None
+    pairs = [(a, b) for a in secs for b in secs if a[0] != b[0] and b[1] != "deleted-file"]
+    res = drv.render(cid, [a[2] + b[2] for a, b in pairs])
+    for (a, b), r in zip(pairs, res):
+        n += 1
+        if r.panic or alone[(b[0], b[1])] is None:
+            continue
+        joint = cells_of(r.out)
+        want = alone[(b[0], b[1])]
+        got = joint[len(joint) - len(want):]
+        if got != want:
+            differing += 1
+            klass = "language-depends-on-previous-file"
+            if klass not in viols:
+                j = next(i for i, (x, y) in enumerate(zip(got, want)) if x != y)
+                v = Violation(klass, "[%s] section %s/%s is rendered differently after %s/%s than alone (row %d of the "
+                              "section: %r)" % (vec_name, b[0], b[1], a[0], a[1], j,
+                                                "".join(c for c, _ in want[j])), (a[2] + b[2]).split(b"\n")[:-1])
+                v.args = build_args(base)
+                v.config_label = vec_name
+                viols[klass] = v
+    drv.drop(cid)
+    return {"n": n + len(secs), "violations": list(viols.values()), "distinct": len(set(map(repr, alone.values())))}
+
+
 def main(tier):
     t0 = time.time()
     build.ensure_built()
@@ -284,9 +362,10 @@ def main(tier):
     res = explore.pmap(run_theme_task, tasks)
     exts = languages()
     lres = explore.pmap(run_lang_task, [(exts[i:i + 40], deadline) for i in range(0, len(exts), 40)])
-    n = sum(r["n"] for r in res) + sum(r["n"] for r in lres)
+    nres = explore.pmap(run_neighbour_task, [(v, deadline) for v in ("defaults", "syntax", "mixed")])
+    n = sum(r["n"] for r in res) + sum(r["n"] for r in lres) + sum(r["n"] for r in nres)
     viols = []
-    for r in res + lres:
+    for r in res + lres + nres:
         viols.extend(r["violations"])
     best = {}
     for v in viols:
@@ -300,6 +379,6 @@ def main(tier):
                 "differently from plain text",
         "samples": [{"diff": diffs[0][1].decode()}, {"extensions": exts[:8]}],
         "themes": sum(len(v) for v in th.values()), "extensions_and_names": len(exts), "diffs": len(diffs),
-        "style_vectors": list(STYLE_VECTORS), "exhaustive": True,
+        "style_vectors": list(STYLE_VECTORS), "neighbour_pairs_rendered": sum(r["n"] for r in nres), "exhaustive": True,
     }
     return report.finish(PROP, tier, "exploration", cov, viols, ASSUMPTIONS, t0, runner.seed())
